@@ -58,8 +58,15 @@ def hostile_requests(rng, model, full: bool) -> typing.List[typing.Tuple[str, by
             add("bad:" + view, data, tls)
     # a real object's selector with a '.' or empty component appended or inserted: names the same directory to the file
     # system, is no selector the server ever advertised
+    # every short run of separators and dots, so that no spelling depends on having been thought of
+    import itertools
+    dot_slash = [b"/" + bytes(x) for n in range(0, 4) for x in itertools.product(b"/.", repeat=n)]
+    menus = set(m.selector for m in model.menus(full))
     for o in objs:
-        for suffix in (b"/.", b"/", b"//", b"///", b"/.\\", b"/%2e", b"/. ", b"/%2f", b"/%2F/"):
+        suffixes = [b"/.", b"/", b"//", b"///", b"/.\\", b"/%2e", b"/. ", b"/%2f", b"/%2F/"]
+        if o.selector in menus:
+            suffixes += [x for x in dot_slash if x not in suffixes] + [b"/%2e/", b"/./%2e", b"/.%2f"]
+        for suffix in suffixes:
             for view in ("gopher", "gopherp$", "http", "wap", "gemini", "spartan", "gophers"):
                 if reqs.VIEWS[view][0] in ("gopher", "gopherp") and suffix.startswith(b"/%"):
                     continue
